@@ -53,3 +53,16 @@ Proof.
   unfold src_ts_visibilities_identical, setup_ts_visibilities_identical. rewrite src_setup_ts_rates_eq.
   destruct (setup_ts_rates J J ls li ls li n 0) as [[ss ii] si]. reflexivity.
 Qed.
+
+Theorem src_ts_is_model n A r1 r2 dt J1 J2 ls1 li1 ls2 li2 :
+  src_ts_rates n A r1 r2 dt
+    = (ts_rate_ss ROps n A (ts_phase_ss r1 r2 dt), ts_rate_ii ROps n A (ts_phase_ii r1 r2 dt), ts_rate_si ROps n A (ts_phase_si r1 r2 dt)) /\
+  src_ts_tabulate J1 J2 ls1 li1 ls2 li2 n = ts_tabulate J1 J2 ls1 li1 ls2 li2 n /\
+  src_ts_rates n (src_ts_tabulate J1 J2 ls1 li1 ls2 li2 n) (axes_grid ls1 li1 n) (axes_grid ls2 li2 n) dt
+    = setup_ts_rates J1 J2 ls1 li1 ls2 li2 n dt.
+Proof. repeat split; [apply src_ts_rates_eq|apply src_setup_ts_rates_eq]. Qed.
+
+Theorem src_ts_wrappers J ls li n dt :
+  src_setup_ts_rates_self J ls li n dt = setup_ts_rates J J ls li ls li n dt /\
+  src_ts_visibilities_identical J ls li n = setup_ts_visibilities_identical J ls li n.
+Proof. split; [apply src_setup_ts_rates_self_eq|apply src_ts_visibilities_identical_eq]. Qed.
